@@ -58,9 +58,11 @@ def lo_quantities(c):
 def lo_knife(c):
     fig, _ = lo_quantities(c)
 
+    strict = c.get('stream') == 'exact'
+
     def k(a):
         A, fees, p = fig[a]
-        return p is not None and near_int((A - fees) / Fraction(p))
+        return p is not None and near_int((A - fees) / Fraction(p), strict)
     return k
 
 
@@ -93,6 +95,18 @@ class C10(Prop):
             bump = rng.choice([0, 0, 1, -1])
             if bump:
                 c['equity'] = E + bump * E * 2.0 ** -22
+            return c
+        if stream == 'nearly':
+            # weights that are already (almost) normalised: sum = 1 +- a few 1e-6, large equity / price
+            # ratio so that a relative 1e-6 is worth whole shares
+            raw = [rng.random() + 0.05 for _ in assets]
+            tot = sum(raw)
+            eps = rng.choice([0.0, 1e-9, -1e-9, 1e-7, 8e-6, -8e-6, 1e-5, -1e-5, 3e-5, 1e-4, -1e-4])
+            c['weights'] = [[a, x / tot * (1 + eps)] for a, x in zip(assets, raw)]
+            c['param'] = rng.choice([0.0, 0.05, 0.5])
+            c['equity'] = rng.choice([1e6, 5e6, 9e6, rng.uniform(1e6, 1e7)])
+            c['fee'] = ['zero'] if rng.random() < 0.6 else ['pct', 0.001, 0.0]
+            c['prices'] = [[a, rng.choice([1.0, 0.5, 2.0, round(rng.uniform(0.5, 3), 2)])] for a in assets]
             return c
         c['param'] = rng.choice([0.0, 1.0, 0.05, 0.15, 0.025, round(rng.random(), 3), rng.random()])
         c['equity'] = rng.choice([1e6, 325000.0, 687523.0, round(rng.uniform(100, 5e6), 2), rng.uniform(1, 1e7)])
@@ -132,7 +146,7 @@ class C10(Prop):
         out = []
         for i in range(n):
             r = rng.random()
-            out.append(self.gen_case(rng, 'random' if r < 0.65 else ('exact' if r < 0.85 else 'malformed')))
+            out.append(self.gen_case(rng, 'random' if r < 0.55 else ('exact' if r < 0.75 else ('nearly' if r < 0.88 else 'malformed'))))
         return out
 
     def model_case(self, c):
@@ -185,8 +199,12 @@ class C10(Prop):
             if q < 0 and (A - fees) / p < -1:
                 out.append('negative long-only quantity %s for %s' % (q, a))
                 continue
-            if near_int((A - fees) / p):
+            x = (A - fees) / p
+            if near_int(x):
                 j.knife += 1
+                continue
+            if x.denominator == 1 and x != 0 and c.get('stream') != 'exact' and q == x - 1:
+                j.knife += 1      # an exact multiple reached through inexact float steps may land one share short
                 continue
             if q < 0:
                 out.append('negative long-only quantity %s for %s' % (q, a))
